@@ -104,8 +104,64 @@ def consume(ctx, cases, results, stats):
     return trace
 
 
+def read_export(path):
+    """Read what MetaMC exported: short records as one JSON line each, vectors in pieces
+    <fp1>#<fp2>#<k>#<n>#"<piece>" (see MetaMC!EmitV) that are put together again here.  Anything that does not
+    parse is an infrastructure failure, reported with the line and its length (a line of 8192 bytes or more can be
+    torn by concurrent appends of TLC's workers)."""
+    whole, pieces, order = [], {}, []
+    with open(path, encoding="utf-8") as f:
+        for no, line in enumerate(f, 1):
+            line = line.rstrip("\n")
+            if not line.strip():
+                continue
+            if len(line.encode("utf-8")) >= 8192:
+                raise common.Infra("export line %d of %s is %d bytes long: lines of 8192 bytes or more are not written "
+                                   "atomically by concurrent TLC workers" % (no, os.path.basename(path), len(line)))
+            try:
+                if line[0] in "-0123456789" and line.count("#") >= 4:
+                    a, b, k, n, rest = line.split("#", 4)
+                    key = (a, b)
+                    if key not in pieces:
+                        pieces[key] = {}
+                        order.append(key)
+                    k, n = int(k), int(n)
+                    piece = json.loads(rest)
+                    if k in pieces[key]:
+                        # two distinct states may export the same record (the same tree reached from two bases):
+                        # the pieces are then identical, and the vector counts as often as it was written
+                        if pieces[key][k][:2] != (n, piece):
+                            raise ValueError("piece %d of vector %s/%s occurs twice with different content" % (k, a, b))
+                        pieces[key][k] = (n, piece, pieces[key][k][2] + 1)
+                    else:
+                        pieces[key][k] = (n, piece, 1)
+                else:
+                    v = json.loads(line)
+                    if isinstance(v, str):
+                        v = json.loads(v)
+                    whole.append(v)
+            except ValueError as e:
+                raise common.Infra("export line %d of %s (%d bytes) cannot be parsed: %s; starts %r"
+                                   % (no, os.path.basename(path), len(line), e, line[:120]))
+    for key in order:
+        p = pieces[key]
+        n = next(iter(p.values()))[0]
+        if sorted(p) != list(range(1, n + 1)):
+            raise common.Infra("vector %s/%s of %s is incomplete: pieces %s of %d" % (key[0], key[1], os.path.basename(path), sorted(p), n))
+        times = p[1][2]
+        if any(p[k][2] != times for k in p):
+            raise common.Infra("vector %s/%s of %s: pieces written %s times" % (key[0], key[1], os.path.basename(path),
+                                                                                 [p[k][2] for k in sorted(p)]))
+        text = "".join(p[k][1] for k in range(1, n + 1))
+        try:
+            whole.extend([json.loads(text)] * times)
+        except ValueError as e:
+            raise common.Infra("vector %s/%s of %s (%d characters) cannot be parsed: %s" % (key[0], key[1], os.path.basename(path), len(text), e))
+    return whole
+
+
 def read_vectors(ctx, path, tlc, mode):
-    cases = common.read_ndjson(path)
+    cases = read_export(path)
     binds = [c for c in cases if c.get("mode") == "bind"]
     vecs = [c for c in cases if c.get("mode") == mode]
     picks = sum(1 for c in cases if c.get("mode") == "pick")   # intermediate "node picked" states
